@@ -522,9 +522,68 @@ def run_cfg(ck, cfg):
     allocator_triple(ck, P, cfg)
 
 
+def path_owned_before_exit(ck, P, cfg, R="REL/path-owned-before-exit"):
+    """gzopen: the copy of the path name (gz_strdup) is released by free_state / gzclose through `state.source`.  Once the copy
+    exists, no way out of gzopen_help avoids the store that hands it to the state - otherwise the failure paths (open(2) failing)
+    free the state without the string."""
+    G_ = SYS + "gz::"
+    f = P.fn(G_ + "gzopen_help")
+    if not ck.anchor("fn gz::gzopen_help", f):
+        return
+    ck.use_fn(f)
+    dups = f.live_calls(r"gz::gz_strdup$")
+    if not ck.anchor("gz_strdup call in gzopen_help", bool(dups)):
+        return
+    for i, c in enumerate(dups):
+        res = c.dest.get("l") if c.dest and not c.dest.get("p") else None
+        stores = set()
+        for bb, fp, root, rv, st in f.field_writes():
+            if fp and str(fp[-1]) == "source":
+                e = rv if not isinstance(rv, dict) else f.rvalue_expr(rv)
+                if any(x[0] == "call" and isinstance(x[1], str) and x[1].endswith("gz_strdup") for x in mir.walk(e)) or \
+                        (res is not None and any(x[0] in ("v", "p") and x[1] == res for x in mir.walk(e))):
+                    stores.add(bb)
+        if not ck.anchor("store of the copied path into state.source", bool(stores)):
+            continue
+        leaks = []
+        for b, kind in f.exits():
+            if kind != "return" or not flow.reaches_avoiding(f, [c.target if c.target is not None else c.bb], [b], cut_blocks=stores):
+                continue
+            # the exit taken because the copy could not be made has nothing to hand over
+            nullexit = False
+            for a in f.dominating_atoms(b):
+                s_ = sig.sig(a, f)
+                if s_.kind == "truth" and s_.truth is True and any(k.endswith("is_null") for k in s_.calls) and \
+                        any(k.endswith("gz_strdup") for k in s_.calls):
+                    nullexit = True
+            # which path reaches it: only flag exits reachable without the store even when the null test failed
+            if nullexit:
+                continue
+            leaks.append(b)
+        # exits that are only reachable through the null branch were skipped; the rest must not exist
+        real = []
+        for b in leaks:
+            def not_null_edge(bb_, lab, tb):
+                if lab is None or lab[0] == "const":
+                    return False
+                for a in f.edge_atoms(bb_, lab):
+                    s_ = sig.sig(a, f)
+                    if s_.kind == "truth" and s_.truth is True and any(k.endswith("is_null") for k in s_.calls) and \
+                            any(k.endswith("gz_strdup") for k in s_.calls):
+                        return True
+                return False
+            if flow.reaches_avoiding(f, [c.target if c.target is not None else c.bb], [b], cut_blocks=stores, cut_edges=not_null_edge):
+                real.append(b)
+        ck.decide(not real, R, "gzopen_help:path#%d@%s" % (i, cfg), "every exit after the copy passes the store into state.source",
+                  "gzopen_help can return after gz_strdup succeeded without having stored the copy in state.source: free_state on the "
+                  "failure path does not see the string and it is never freed", where(f, f.blocks[real[0]]["t"].get("line") if real else c.line))
+
+
 def run(ck):
     run_cfg(ck, "K1")
     run_cfg(ck, "K2")
+    for cfg_ in ("K1", "K2"):
+        path_owned_before_exit(ck, prog(cfg_), cfg_)
     # allocation, failure and release decisions are those of the reference
     from .. import condparity as _cp
     ck.floor("SIB/ref-conditions", _cp.check(ck, prog("K1"), "SIB/ref-conditions", only={"inflate.c:inflateEnd", "deflate.c:deflateEnd", "inflate.c:inflateInit2",
